@@ -104,7 +104,9 @@ func (w *interpWorld) str(pos string) string {
 	if w.errPos != "" && !w.errPlaced && pos == w.errPos {
 		w.errPlaced = true
 		w.c.Fault("failing_expansion", pos)
-		return "pre-${VERIF_UNSET_REQUIRED?must be set}-post"
+		// fails when evaluated (a required variable is unset) or already when read (not a well-formed reference)
+		return []string{"pre-${VERIF_UNSET_REQUIRED?must be set}-post", "pre-${VERIF_UNSET_REQUIRED?must be set}-post", "$FOO ${ARTIFACT%.tgz} $$BAR", "x${1}y", "tail ${IMAGE",
+			"${QUEUE:x}", "${MSG/a/b} $FOO", "${}"}[t.Draw(8, "str:failing-form")]
 	}
 	if t.Draw(10, "str:ref?") < w.refRate {
 		vars := w.universe
@@ -117,6 +119,11 @@ func (w *interpWorld) str(pos string) string {
 			if isKeyPos(pos) {
 				w.keyRef = true
 			}
+		}
+		if pos == "env.name" && t.Draw(3, "env:universe-name") == 2 {
+			// a step's own variable named like one the block or the caller defines (it shadows nothing during
+			// interpolation: other fields of the step still see the block's / caller's value)
+			return w.universe[t.Draw(len(w.universe), "env:name")]
 		}
 		if pos == "penv.name" {
 			// most names plain so chains form; remember them for later references
@@ -482,8 +489,12 @@ func runInterp(c *engine.Ctx, focus string) {
 		c.Fail(focus+".envcontents", "final", "caller environment after Interpolate: %s\nmodel: %s", env.contents(), ex.envAfter.contents())
 	}
 
-	// ---- C04 oracle: every string = single-pass expansion; nothing else changed
-	if d, cp := gen.DiffClass(ex.tree, after, "Pipeline", "Pipeline"); d != "" {
+	// ---- C04 oracle: every string = single-pass expansion; nothing else changed (a nil container stays nil, an
+	// empty one stays empty)
+	gen.StrictNil = true
+	d, cp := gen.DiffClass(ex.tree, after, "Pipeline", "Pipeline")
+	gen.StrictNil = false
+	if d != "" {
 		c.Fail(focus+".tree", cp, "after Interpolate the pipeline differs from the single-pass expansion of the original (want vs got): %s\nruntime env: %s\nmap order mode=%d visitnew=%v\ndocument (%s):\n%s", d, ex.envAfter.contents(), zzverifsim.Mode, zzverifsim.VisitNew, format, truncate(string(src), 1500))
 	}
 
